@@ -265,12 +265,19 @@ def pair_closure_ok(f, scope):
 
 def fold_ok(fold):
     ini, st = fold["init"], fold["step"]
-    if ini["k"] != "closure" or st["k"] != "closure" or len(st["params"]) != 2:
+    if st["k"] != "closure" or len(st["params"]) != 2:
         return None
-    ib = rx.closure_body(ini)
-    if not (ib["k"] == "macro" and ib["name"] == "vec" and not ib.get("args")):
-        if not (ib["k"] == "call" and rx.path_str(ib["f"]) in ("Vec::new", "Vec::default")):
+    if ini["k"] == "path":
+        # a constructor function used as the initialiser: Vec::new / Vec::default
+        if rx.path_str(ini) not in ("Vec::new", "Vec::default", "Default::default"):
             return False
+    elif ini["k"] != "closure":
+        return None
+    else:
+        ib = rx.closure_body(ini)
+        if not (ib["k"] == "macro" and ib["name"] == "vec" and not ib.get("args")):
+            if not (ib["k"] == "call" and rx.path_str(ib["f"]) in ("Vec::new", "Vec::default") and not ib["args"]):
+                return False
     acc, e = [rx.pat_bindings(p)[0] for p in rx.closure_params(st)]
     body = st["body"]
     stmts = rx.stmts_of(body)
